@@ -102,6 +102,26 @@ def gen_exhaustive(ctx):
     # a real coder replaced by the stub without lzma_end (lzma_next_coder_init must free the old coder)
     hs.append(("reinit-real", ["new real lzma_easy_encoder 0 100 100 4096 -1", "call 0 s:0:50 s:0:100 - - 0 0 0", "call 1 k k - - 0 0 0",
                                "reinit stub 31 0", "call 3 s:0:8 s:0:8 - - 1 1 0", "call 3 k k - - 1 1 1", "call 0 k k - - 1 1 0", "end"]))
+    # size_t-wide pending input (a 4 GiB + 1 MiB read-only mapping the stub never has to touch): amounts that differ by
+    # exactly 2^32 during a flush/finish, consumption of more than 2^32 bytes in one call, totals
+    W = 1 << 32
+    for a in (1, 2, 3, 4):
+        for k in (1000, 1005, 5000):
+            hs.append(("wide", ["new stub 31 0",
+                                "call %d b:0:%d s:0:32 - - 0 1 0" % (a, W + k),      # flush/finish started with 2^32 + k pending
+                                "call %d b:0:%d k - - 0 1 0" % (a, k),               # reduced by exactly 2^32: PROG_ERROR
+                                "call %d b:0:%d k - - 0 1 0" % (a, W + k),           # unchanged: accepted
+                                "call %d k k - - 0 1 0" % a,                         # unchanged: accepted
+                                "call %d d:-%d k - - 0 1 0" % (a, W),                # reduced by 2^32 again: PROG_ERROR
+                                "call %d b:0:%d k - - 7 1 0" % (a, W + k),           # accepted; 7 consumed, 2^32 + k - 7 stay pending
+                                "call %d b:7:%d k - - 0 1 0" % (a, k - 7),           # reduced by exactly 2^32: PROG_ERROR
+                                "call %d b:7:%d k - - 0 1 0" % (a, W + k - 7),       # what is really pending: accepted
+                                "call %d k k - - 100000 1 1" % a,                    # the end
+                                "end"]))
+    hs.append(("wide", ["new stub 31 0", "call 0 b:0:%d s:0:16 - - %d 0 0" % (W + 100, W + 1), "call 0 k k - - 1000 1 0",
+                        "call 0 b:5:%d s:0:16 - 18446744073709551615:0 %d 1 0" % (W + 100, W + 100), "progress",
+                        "call 3 b:0:%d k - - 10 0 0" % (W + 50), "call 3 b:10:40 k - - 0 0 0",
+                        "call 3 b:10:%d k - - %d 1 1" % (W + 40, W + 40), "end"]))
     # totals wrap
     hs.append(("wrap", ["new stub 31 0", "call 0 s:0:10 s:0:10 - 18446744073709551614:18446744073709551615 3 3 0", "call 0 k k - - 1 0 0",
                         "call 0 k k - 18446744073709551615:0 0 5 0", "progress", "end"]))
@@ -339,7 +359,7 @@ class Session:
         return rc, err
 
 
-def drive_real(exe, seed, api, variant, style, max_calls):
+def drive_real(exe, seed, api, variant, style, max_calls, first_rel=None):
     """An application that uses a real coder mostly legally, steering by the return values, with ~8 % illegal calls
     (each followed by a call that restores the buffers, so that one mistake does not poison the rest of the session)."""
     rng = random.Random(seed)
@@ -352,6 +372,10 @@ def drive_real(exe, seed, api, variant, style, max_calls):
         insz = 32768
     outsz = 8192
     corrupt = rng.randrange(0, 300) if style in ("dec", "seek") and rng.random() < 0.25 else -1
+    if first_rel is not None:
+        # sweep: the FIRST slice of a file-info session ends `first_rel` bytes after (file size - 8192), i.e. around the
+        # position the decoder jumps to right after the 12-byte Stream Header
+        datalen, corrupt = rng.choice((16000, 24000)), -1
     se = Session(exe)
     r = se.send("new real %s %d %d %d %d %d" % (api, variant, datalen, insz, outsz, corrupt))
     if r is None or r.startswith("bad-op"):
@@ -389,6 +413,8 @@ def drive_real(exe, seed, api, variant, style, max_calls):
         # buffers
         if first:
             ins, outs = ("z:%d" % chunk_in if seek else "s:0:0"), "s:0:0"
+            if first_rel is not None:
+                ins = "z:%d" % max(1, enc - 8192 + first_rel)
         else:
             if restore:
                 ins, outs = "s:%d:%d" % (nin, ain), "s:%d:%d" % (nout, aout)
@@ -619,6 +645,8 @@ def apply_spec(spec, cur, avail):
     p = spec.split(":")
     if p[0] == "s":
         return int(p[1]), int(p[2])
+    if p[0] == "b":
+        return (1 << 40) + int(p[1]), int(p[2])
     if p[0] == "n":
         return None, int(p[1])
     if p[0] == "d":
@@ -967,13 +995,18 @@ def batches(ctx, exe):
     # adaptive sessions on the real coders (an application steering by the return values)
     jobs = [(api, variant, style, ctx.rng.getrandbits(48)) for (api, variant, style) in REAL_CODERS for _ in range(3 if quick else 60)]
 
+    # file-info decoder: first slices ending densely around the decoder's first jump target
+    jobs += [("lzma_file_info_decoder", 0, "seek", ctx.rng.getrandbits(48), rel)
+             for rel in range(-40, 21) for _ in range(1 if quick else 4)]
+
     def sess(j):
-        se = drive_real(exe, j[3], j[0], j[1], j[2], 60 if quick else 120)
+        se = drive_real(exe, j[3], j[0], j[1], j[2], 60 if quick else 120, first_rel=j[4] if len(j) > 4 else None)
         rc, err = se.close()
         return se.ops, se.out, rc, err
     hists, impl = [], {}
-    for (api, variant, style, seed), (ops, out, rc, err) in zip(jobs, vlib.par_map(sess, jobs)):
-        hists.append(("real:%s/%d" % (api, variant), ops))
+    for j, (ops, out, rc, err) in zip(jobs, vlib.par_map(sess, jobs)):
+        api, variant = j[0], j[1]
+        hists.append((("real:%s/%d" if len(j) == 4 else "sweep:%s/%d") % (api, variant), ops))
         if rc != 0 or None in out or len(out) != len(ops):
             if len(ctx.violations) < 4:
                 ctx.violation("harness-abort", {"kind": "implementation aborted (sanitizer/assert/crash) in an interactive session; the last op is the one that aborted",
